@@ -3,6 +3,7 @@
   half-hour breakpoints exactly as the whole-second time of day does.
 -/
 import AcnModel.Tariff
+import AcnProofs.Lemmas.TariffRound
 import Mathlib.Tactic
 
 namespace Acn.C17
@@ -85,12 +86,153 @@ theorem no_flip_of_close (x : ℚ) (T k : Nat) (hclose : |x - (T : ℚ) / 3600| 
       push_cast at hq
       linarith [hclose.1]
 
-/-- kernel-checked part of the table: every whole minute of the day -/
+/-- kernel-checked table (cross-check and the `s = 0` case of `target_hour_no_flip`): every whole
+    minute of the day -/
 theorem flipOk_whole_minutes : ∀ h < 24, ∀ m < 60, flipOk h m 0 = true := by decide +kernel
 
 /-- kernel-checked part of the table: one second before and after every half hour -/
 theorem flipOk_around_half_hours :
     ∀ h < 24, (flipOk h 0 1 && flipOk h 29 59 && flipOk h 30 1 && flipOk h 59 59) = true := by
   decide +kernel
+
+/-! ### the hour value of every whole second is within 1.2·10⁻²⁶ of the exact rational -/
+
+/-- `Decimal(hour) + Decimal(minute) / 60` -/
+def hourX (h m : Nat) : Dec := Dec.add (Dec.ofNat h) (Dec.div (Dec.ofNat m) (Dec.ofNat 60))
+
+/-- `Decimal(second) / 3600` -/
+def hourB (s : Nat) : Dec := Dec.div (Dec.ofNat s) (Dec.ofNat 3600)
+
+theorem targetHour_eq (h m s : Nat) : targetHour h m s = Dec.add (hourX h m) (hourB s) := rfl
+
+/-- executable form of `-40 ≤ e ≤ 0 ∧ |c·10^e − num/den| ≤ tn/10^t` -/
+def closeB (d : Dec) (num den tn t : Nat) : Bool :=
+  match d with
+  | ⟨c, e⟩ =>
+    decide (e ≤ 0) && decide (-40 ≤ e) &&
+    decide (c * den * 10 ^ t ≤ num * 10 ^ (-e).toNat * 10 ^ t + tn * den * 10 ^ (-e).toNat) &&
+    decide (num * 10 ^ (-e).toNat * 10 ^ t ≤ c * den * 10 ^ t + tn * den * 10 ^ (-e).toNat)
+
+theorem close_of_closeB (d : Dec) (num den tn t : Nat) (hden : 0 < den)
+    (h : closeB d num den tn t = true) :
+    d.e ≤ 0 ∧ -40 ≤ d.e ∧ |d.toRat - (num : ℚ) / den| ≤ (tn : ℚ) / 10 ^ t := by
+  obtain ⟨c, e⟩ := d
+  simp only [closeB, Bool.and_eq_true, decide_eq_true_eq] at h
+  obtain ⟨⟨⟨he, he'⟩, h1⟩, h2⟩ := h
+  refine ⟨he, he', ?_⟩
+  rw [toRat_of_nonpos c e he]
+  set P := 10 ^ (-e).toNat with hP
+  have hPq : (0 : ℚ) < (P : ℚ) := by positivity
+  have hdq : (0 : ℚ) < (den : ℚ) := by exact_mod_cast hden
+  have hT : (0 : ℚ) < (10 : ℚ) ^ t := by positivity
+  have h1q : (c : ℚ) * den * 10 ^ t ≤ num * P * 10 ^ t + tn * den * P := by exact_mod_cast h1
+  have h2q : (num : ℚ) * P * 10 ^ t ≤ c * den * 10 ^ t + tn * den * P := by exact_mod_cast h2
+  have key : (c : ℚ) / P - (num : ℚ) / den = (c * den - num * P) / (P * den) := by field_simp
+  rw [key, abs_le]
+  constructor
+  · rw [le_div_iff₀ (by positivity)]
+    have h3 : (num : ℚ) * P - c * den ≤ tn * den * P / 10 ^ t := by
+      rw [le_div_iff₀ hT]; nlinarith
+    have h4 : (tn : ℚ) / 10 ^ t * (P * den) = tn * den * P / 10 ^ t := by ring
+    linarith
+  · rw [div_le_div_iff₀ (by positivity) hT]
+    nlinarith
+
+/-- kernel-checked table: hour + minute/60, all 1440 minutes of the day -/
+theorem tableX : ∀ h < 24, ∀ m < 60, closeB (hourX h m) (60 * h + m) 60 6 27 = true := by
+  decide +kernel
+
+/-- kernel-checked table: second/3600, all 60 seconds -/
+theorem tableB : ∀ s < 60, closeB (hourB s) s 3600 1 27 = true := by decide +kernel
+
+theorem ndigits_one : ndigits 1 = 1 := by decide
+
+/-- **the computed hour value of every whole second that is not a whole minute is within
+    1.2·10⁻²⁶ of the exact rational** — from the half-ulp rounding bound of the final `Dec.add`
+    (`add_err`, `roundQ_exp_le`, `ndigits_le_of_lt`) and the two small tables for its operands -/
+theorem target_hour_close (h m s : Nat) (hh : h < 24) (hm : m < 60) (hs0 : 1 ≤ s) (hs : s < 60) :
+    |(targetHour h m s).toRat - (secOfDay h m s : ℚ) / 3600| ≤ 12 / 10 ^ 27 := by
+  obtain ⟨hXe, hXe', hX⟩ := close_of_closeB _ _ _ _ _ (by norm_num) (tableX h hh m hm)
+  obtain ⟨hBe, hBe', hB⟩ := close_of_closeB _ _ _ _ _ (by norm_num) (tableB s hs)
+  rw [abs_le] at hX hB
+  set X := hourX h m
+  set B := hourB s
+  have hhq : (h : ℚ) ≤ 23 := by exact_mod_cast Nat.le_of_lt_succ hh
+  have hmq : (m : ℚ) ≤ 59 := by exact_mod_cast Nat.le_of_lt_succ hm
+  have hsq : (s : ℚ) ≤ 59 := by exact_mod_cast Nat.le_of_lt_succ hs
+  have hsq1 : (1 : ℚ) ≤ s := by exact_mod_cast hs0
+  have hh0 : (0 : ℚ) ≤ h := by positivity
+  have hm0 : (0 : ℚ) ≤ m := by positivity
+  push_cast at hX hB
+  -- the exact sum of the operands
+  have hsum_pos : 0 < X.toRat + B.toRat := by
+    have : (1 : ℚ) / 3600 ≤ (s : ℚ) / 3600 := by apply div_le_div_of_nonneg_right hsq1; norm_num
+    have : (0 : ℚ) ≤ (60 * (h : ℚ) + m) / 60 := by positivity
+    norm_num at hX hB ⊢
+    linarith [hX.1, hB.1]
+  have hsum_lt : X.toRat + B.toRat < 100 := by
+    have : (s : ℚ) / 3600 ≤ 59 / 3600 := by apply div_le_div_of_nonneg_right hsq; norm_num
+    have : (60 * (h : ℚ) + m) / 60 ≤ (60 * 23 + 59) / 60 := by
+      apply div_le_div_of_nonneg_right _ (by norm_num); linarith
+    norm_num at hX hB ⊢
+    linarith [hX.2, hB.2]
+  -- exponent of the final rounding
+  have hmm : addMin X B ≤ 0 := by unfold addMin; split_ifs <;> omega
+  have hmm' : -40 ≤ addMin X B := by unfold addMin; split_ifs <;> omega
+  have hval := addCoef_val X B
+  have hP : (0 : ℚ) < (10 : ℚ) ^ addMin X B := by positivity
+  have hS : addCoef X B ≠ 0 := by
+    intro h0
+    rw [h0] at hval
+    simp at hval
+    linarith
+  set K := (2 - addMin X B).toNat with hK
+  have hKz : (K : ℤ) = 2 - addMin X B := by rw [hK]; exact Int.toNat_of_nonneg (by omega)
+  have hSlt : addCoef X B < 10 ^ K := by
+    have h1 : (addCoef X B : ℚ) = (X.toRat + B.toRat) / (10 : ℚ) ^ addMin X B := by
+      rw [← hval]; field_simp
+    have h2 : ((10 ^ K : ℕ) : ℚ) = 100 / (10 : ℚ) ^ addMin X B := by
+      push_cast
+      rw [← zpow_natCast, hKz, zpow_sub₀ (by norm_num : (10 : ℚ) ≠ 0)]
+      norm_num
+    have : (addCoef X B : ℚ) < ((10 ^ K : ℕ) : ℚ) := by
+      rw [h1, h2]; exact div_lt_div_of_pos_right hsum_lt hP
+    exact_mod_cast this
+  have hnd := ndigits_le_of_lt (addCoef X B) K (by omega) hSlt
+  have hexp := roundQ_exp_le decPrec (addCoef X B) 1 hS
+  rw [ndigits_one] at hexp
+  have hE : (roundQ decPrec (addCoef X B) 1).e + addMin X B ≤ -26 := by
+    have : ((ndigits (addCoef X B) : ℕ) : ℤ) ≤ K := by exact_mod_cast hnd
+    simp only [decPrec] at hexp ⊢
+    omega
+  have herr := add_err X B
+  have hpow : (10 : ℚ) ^ ((roundQ decPrec (addCoef X B) 1).e + addMin X B) ≤ (10 : ℚ) ^ (-26 : ℤ) :=
+    zpow_le_zpow_right₀ (by norm_num) hE
+  have h26 : (1 : ℚ) / 2 * (10 : ℚ) ^ (-26 : ℤ) = 5 / 10 ^ 27 := by norm_num
+  have herr' : |(targetHour h m s).toRat - (X.toRat + B.toRat)| ≤ 5 / 10 ^ 27 := by
+    rw [targetHour_eq, ← h26]
+    exact le_trans herr (mul_le_mul_of_nonneg_left hpow (by norm_num))
+  rw [abs_le] at herr' ⊢
+  have hT : (secOfDay h m s : ℚ) / 3600 = (60 * (h : ℚ) + m) / 60 + (s : ℚ) / 3600 := by
+    unfold secOfDay; push_cast; ring
+  rw [hT]
+  norm_num at hX hB herr' ⊢
+  constructor <;> linarith [hX.1, hX.2, hB.1, hB.2, herr'.1, herr'.2]
+
+/-- **no flip, for all 86 400 seconds of the day**: comparing the 28-digit `Decimal` hour value
+    with any half-hour breakpoint `k/2` is the same as comparing whole seconds.  Whole minutes
+    (`s = 0`, which include every half hour, where the value must be exact) come from the
+    kernel-checked table; every other second is at least 1/3600 h away from a half hour and the
+    value is within 1.2·10⁻²⁶ of the exact one. -/
+theorem target_hour_no_flip (h m s : Nat) (hh : h < 24) (hm : m < 60) (hs : s < 60) (k : Nat) :
+    (k : ℚ) / 2 ≤ (targetHour h m s).toRat ↔ 1800 * k ≤ secOfDay h m s := by
+  rcases Nat.eq_zero_or_pos s with rfl | hs0
+  · exact no_flip_of_flipOk h m 0 (flipOk_whole_minutes h hh m hm) k
+  · apply no_flip_of_close
+    · refine lt_of_le_of_lt (target_hour_close h m s hh hm hs0 hs) (by norm_num)
+    · intro hT
+      exfalso
+      unfold secOfDay at hT
+      omega
 
 end Acn.C17
